@@ -188,6 +188,23 @@ theorem C03_once_any_depth (ctx : ImplContext) (named : Bool) (hint : TypeHint)
   rw [this]
   cases NodeList.spec ctx nr none hint ns idx <;> rfl
 
+/-- **C03-1, IntoExisting, any depth**: over a member tree (`NodeList.WF`) the IntoExisting body is `NodeList.specE` — for
+    every contributing member exactly one assignment, in list order (a leaf's line is `render_struct_line` of that
+    member, which `C03_existing_paths` shows to be `other.<child path>.<member> = ..;`), and after the members of each
+    nested struct the ghost assignments addressed to exactly that struct. No member is assigned twice, none is left out -/
+theorem C03_existing_any_depth (ctx : ImplContext) (named : Bool) (hint : TypeHint)
+    (hk : ctx.kind.cls = .existing) (cpa : ChildParentsAttr) (hcpa : ctx.input.attrs.childParentsAttr ctx.ty = some cpa)
+    (nr : Bool) (hnr : ctx.input.namedFields = .ok nr) (ns : NodeList) (fuel : Nat) (frags : TS) (idx : Nat)
+    (hf : ns.weight + 1 < fuel) (hwf : NodeList.WF ctx cpa none none ns) :
+    structInitLoop fuel ns.flatten named ctx none hint frags idx =
+      (match NodeList.specE ctx nr none hint ns idx with
+       | .ok ts => .ok (frags ++ ts, [])
+       | .error e => .error e) := by
+  have := loop_nodes_existing ctx hk cpa hcpa nr hnr ns named none hint [] fuel frags idx hf (by simpa using hwf) rfl
+  simp only [List.append_nil] at this
+  rw [this]
+  cases NodeList.specE ctx nr none hint ns idx <;> rfl
+
 /-- non-vacuity: the two-level tree `a { a.b { f1 }, f2 }` is well formed as soon as the members carry those paths -/
 example (ctx : ImplContext) (cpa : ChildParentsAttr) (fc1 fc2 : FieldContainer) (f1 f2 : Field) (ca1 ca2 : ChildAttr)
     (cdA cdAB : ChildParentData)
